@@ -43,6 +43,10 @@ pub mod tn {
     /// the sampler's own scalar type parameter `T` (erased to Fl in the units) is f32 rather than f64 — an arbitrary
     /// boolean, independent of the backend's: every (T, backend float) combination is inside the quantifier
     pub uninterp spec fn scalar_is_f32() -> bool;
+    /// a scalar argument of `add_scalar` / `mul_scalar` (`E: ElementConversion`): the sampler scalar or an integer literal
+    pub trait ScalarArg: Sized { spec fn sx(self) -> XR; }
+    impl ScalarArg for Fl { open spec fn sx(self) -> XR { val(self) } }
+    impl ScalarArg for i32 { open spec fn sx(self) -> XR { XR::Fin(self as real) } }
     pub trait ElemTag: Sized { spec fn tag_f32() -> bool; }
     impl ElemTag for Fl { open spec fn tag_f32() -> bool { scalar_is_f32() } }
     pub struct DataError;
@@ -183,7 +187,7 @@ pub mod tn {
         #[verifier::external_body]
         pub fn sub(self, o: Self) -> (r: Self) ensures v2(r) == msub(v2(self), v2(o)), v1(r) == vsub(v1(self), v1(o)) { unimplemented!() }
         #[verifier::external_body]
-        pub fn mul_scalar(self, c: Fl) -> (r: Self) ensures v2(r) == mscale(v2(self), val(c)), v1(r) == vscale(v1(self), val(c)), D == 2 ==> tdim2(r) == tdim2(self) { unimplemented!() }
+        pub fn mul_scalar<E: ScalarArg>(self, c: E) -> (r: Self) ensures v2(r) == mscale(v2(self), c.sx()), v1(r) == vscale(v1(self), c.sx()), D == 2 ==> tdim2(r) == tdim2(self) { unimplemented!() }
         #[verifier::external_body]
         pub fn powf_scalar(self, e: Fl) -> (r: Self) ensures v2(r) == mpow(v2(self), val(e)), v1(r) == vpow(v1(self), val(e)), D == 2 ==> tdim2(r) == tdim2(self) { unimplemented!() }
         #[verifier::external_body]
